@@ -2,7 +2,7 @@
 import numpy as np
 
 from sim.core import Violation, Inconclusive, InjectedAbort, RandomProxy, patched_random
-from sim.models import rare_catastrophe_spec, gen_mdp_spec, MDPView, make_mdp, sibling_mdp_spec, rotated_probability_spec, update_model_in_place
+from sim.models import nested_variant_spec, rare_catastrophe_spec, gen_mdp_spec, MDPView, make_mdp, sibling_mdp_spec, rotated_probability_spec, update_model_in_place
 from sim.refsolve import optimal_values, evaluate, game_W
 from sim.heur import gen_heuristic, build_heuristic, is_monotone
 from sim.ctx import RunCtx, make_scheduler, gen_sched
@@ -52,6 +52,8 @@ def gen_case(rng, tier, idx):
         cfg = dict(heur=gen_heuristic(rng), eps=(10.0 if rng.random() < 0.6 else 1e-9) if rng.random() < 0.04 else rng.choice((1e-2, 1e-3, 1e-5)), rao=rng.random() < 0.6, seed=rng.choice((0, 1, 9, None)),
                    reuse=rng.randrange(1000) if rng.random() < 0.2 else None, alias=rng.choice(('fresh', 'fresh', 'cached', 'shared', 'tuple')), cap_exact=rng.random() < 0.25,
                    model_update=rng.random() < 0.1)
+        if rng.random() < 0.1:
+            cfg.update(nest=rng.randrange(1000), cap_exact=False)       # (the F7 replay re-uses the decision log of one uninterrupted run)
     if not tie_cfg and rng.random() < 0.01:
         # a 1e-9 branch into a pit that costs 1e10 to leave: a successor can be nearly impossible and still decide the optimum
         spec = rare_catastrophe_spec(rng)
@@ -69,7 +71,7 @@ def execute(case, script=None):
     ctx = RunCtx(PROP, view)
     ctx.W = game_W(view)
     ctx.declare_probes('absorbing_initial_state', 'absorbing_initial_labelled_by_entry', 'monotone_heuristic', 'non_monotone_heuristic',
-                       'nonzero_heuristic_at_absorbing', 'unproductive_trial', 'trial_events', 'timestep_events', 'undiscounted', 'planner_reused', 'trial_cap_exact', 'rerun_after_abort', 'model_updated_in_place')
+                       'nonzero_heuristic_at_absorbing', 'unproductive_trial', 'trial_events', 'timestep_events', 'undiscounted', 'planner_reused', 'trial_cap_exact', 'rerun_after_abort', 'model_updated_in_place', 'nested_run')
     sched = make_scheduler(case, script, ctx)
     try:
         return _execute(lr, view, case['cfg'], ctx, sched)
@@ -224,7 +226,36 @@ def _execute(lr, view, cfg, ctx, sched):
                     ctx.W = W0
                     st['main'] = True
                 st['log0'] = len(the_sched.log)
+                hookN = None
+                if allow_reuse and cfg.get('nest') is not None:
+                    # fault F10: at the k-th model call-back of the real run, ANOTHER planner object (same class, same seed and
+                    # options) plans another problem with the same state and action keys (other absorbing set / discount, probabilities, rewards)
+                    nsp = nested_variant_spec(view.spec, cfg['nest'])
+                    nv = MDPView(nsp)
+                    if all(s_ in nv.absorbing for s_ in range(nv.N)):
+                        nv = view            # (a sibling without any decision left: nest the problem itself)
+                    nV, _ = optimal_values(nv)
+                    nh = build_heuristic(cfg['heur'], nv, nV)
+                    nW = game_W(nv)
+
+                    def nested():
+                        ctx.probe('nested_run')
+                        st['main'] = False
+                        try:
+                            ctx.W = nW
+                            rn = lr.LRTDP(heuristic=lambda s: nh[sid[s]], seed=cfg['seed'], bellman_error_margin=eps, randomize_action_order=cfg['rao'],
+                                          iterations=30, event_listener_class=L).plan_on(make_mdp(nv, None))
+                            for _s in range(view.N):
+                                try:
+                                    rn.policy.action_dist(sk[_s])
+                                except Exception:
+                                    pass
+                        finally:
+                            st['main'] = True
+                    hookN = ctx.nest_after(1 + cfg['nest'] % 40, nested)
                 r = planner.plan_on(mdp)
+                if hookN is not None:
+                    ctx.disarm(hookN)
             except (Violation, Inconclusive):
                 raise
             except Exception as e:
